@@ -385,10 +385,35 @@ def untested_keywords():
     return out
 
 
+_UNRELATED_NAMES = {}
+
+
+def unrelated_names(task):
+    """keyword names that no function of the task module (or util) accepts: the fixed marker plus every LOCAL
+    variable name of those functions (a keyword filter that consults the wrong part of a code object would let
+    them through); read off the code objects of the source under test"""
+    if task not in _UNRELATED_NAMES:
+        params, local = set(), set()
+        for mod in TASKS + ["util"]:
+            m = getattr(mir_eval, mod)
+            for f in vars(m).values():
+                if inspect.isfunction(f) and f.__module__ == m.__name__:
+                    c = f.__code__
+                    start = c.co_argcount + c.co_kwonlyargcount + bool(c.co_flags & 0x04) + bool(c.co_flags & 0x08)
+                    params.update(c.co_varnames[:start])        # a parameter of ANY task's function is not unrelated
+                    if mod in (task, "util"):
+                        local.update(c.co_varnames[start:])
+                        local.update(c.co_names)
+        names = sorted(n for n in local - params if n.isidentifier() and not n.startswith("_"))
+        _UNRELATED_NAMES[task] = [UNRELATED] + names
+    return _UNRELATED_NAMES[task]
+
+
 def draw_kw(rng, task, names, unrelated):
     kw = {k: rng.choice(KWVALUES[task][k]) for k in names}
     if unrelated:
-        kw[UNRELATED] = rng.choice([1, 0.5, None, "x"])
+        pool = unrelated_names(task)
+        kw[UNRELATED if rng.random() < 0.4 else rng.choice(pool)] = rng.choice([1, 0.5, None, "x"])
     return kw
 
 
@@ -421,12 +446,25 @@ def _notes(rng, n):
         on = round(rng.uniform(0, 10), 3)
         ivs.append([on, round(on + rng.uniform(0.1, 1.0), 3)])
         pitches.append(round(440.0 * 2 ** (rng.randint(-12, 12) / 12.0), 3))
+        if rng.random() < 0.25:
+            # a unison: same pitch, (almost) the same onset, another duration -> several maximum matchings once
+            # offsets are ignored
+            on2 = round(max(0.0, on + rng.choice([0.0, 0.017, -0.015])), 3)
+            ivs.append([on2, round(on2 + rng.uniform(0.1, 1.0) * rng.choice([0.5, 2.0]), 3)])
+            pitches.append(pitches[-1])
     return ivs, pitches
 
 
 def _perturb_notes(rng, ivs, pitches):
     """an estimate close to the reference (so that matches happen), with drops and insertions"""
     out_i, out_p = [], []
+    if rng.random() < 0.2:
+        # every note found (onsets and offsets well inside the tolerances), listed in the opposite order
+        for iv, p in reversed(list(zip(ivs, pitches))):
+            on = round(max(0.0, iv[0] + rng.choice([0, 0.01, -0.015])), 3)
+            out_i.append([on, round(max(on + 0.05, iv[1] + rng.choice([0, 0.01, -0.01])), 3)])
+            out_p.append(p)
+        return out_i, out_p
     for iv, p in zip(ivs, pitches):
         if rng.random() < 0.2:
             continue
@@ -968,6 +1006,8 @@ def suite_signatures(rng, tier, shard, nshards):
         kw = {"window": 1, "beta": 2, UNRELATED: 3}
         for p in list(f.__code__.co_varnames[:f.__code__.co_argcount])[-2:]:
             kw[p] = 4
+        for p in list(f.__code__.co_varnames[f.__code__.co_argcount:])[:3]:
+            kw.setdefault(p, 5)       # local variable names are not parameters
         yield Case("evalprog.filter_kwargs", [qn, enc_kw(kw)],
                    lambda f=f, kw=kw: [[k, v] for k, v in _filter_probe(f, kw).items()],
                    tag="filter:" + qn.split(".")[0], info={"fn": qn, "kw": kw}, nontrivial=True)
